@@ -2046,6 +2046,67 @@ def check_c10(prog, rep, tier, cfg):
 
 # =========================================================================== C11
 
+def _rewrite_flag_as_fold(prog, rep, R, b):
+    """The same flag written as a fold: `tokens.iter().fold(false, |changed, idx| step(idx) | changed)` where `step` returns true exactly on
+    the paths that replace a token's text.  (`|` evaluates both sides; with `||` or `any` the step would not run once the flag is true.)
+    Returns False when the function does not have this form (the caller then reports the loop form's anchors)."""
+    folds = [c for c in b.calls() if (c.callee or "") == "core::iter::traits::iterator::Iterator::fold" and len(c.args) == 3]
+    if len(folds) != 1:
+        return False
+    f = folds[0]
+    ret = canon(b, {"k": "copy", "place": {"l": 0, "p": []}})
+    src = canon(b, f.args[0])
+    clos = b.locals[f.args[2]["place"]["l"]].get("closure") if f.args[2]["k"] in ("copy", "move") else None
+    cb = prog.body(norm(clos)) if clos else None
+    if cb is None or not ret.startswith("fold(") or "get_tokens(" not in src:
+        return False
+    init_false = f.args[1]["k"] == "const" and f.args[1].get("bool") is False
+    adapters = re.findall(r"([A-Za-z_][A-Za-z_0-9]*)\(", src)
+    whole = all(a in KEEPS_EVERY_ELEMENT + ("get_tokens", "deref") for a in adapters)
+    try:
+        tc = Table(prog, cb, inline=0)
+    except TooComplex:
+        return False
+    bad = []
+    step = None
+    for cons, res in tc.rows:
+        r = render(res)
+        m = re.match(r"^sym:(BitOr|Or)\((.*)\)$", r)
+        if not m or cons:
+            bad.append("the fold's closure is not `step(..) | accumulator` on every path: %s" % r[:80])
+            continue
+        if m.group(1) != "BitOr":
+            bad.append("the accumulator is combined with a short-circuiting `||`")
+        parts = m.group(2)
+        if not (parts.endswith(",arg2") or parts.startswith("arg2,")):
+            bad.append("the accumulator is not one of the two operands: %s" % parts[:80])
+        sm = re.search(r"([A-Za-z_][A-Za-z_0-9]*)\(", parts)
+        step = sm.group(1) if sm else None
+    sb = None
+    for c in cb.calls():
+        cal = prog.body(c.resolved or c.callee or "")
+        if cal is not None and cal.crate.startswith("pasfmt") and cal.npath.split("::")[-1] == step:
+            sb = cal
+    nre = 0
+    if sb is None:
+        bad.append("the per-token step of the fold was not found")
+    else:
+        try:
+            ts = Table(prog, sb, inline=0, opaque=("try_rewrite_string",))
+            for (cons, res), calls in zip(ts.rows, ts.calls):
+                rewrote = any(n.endswith("Token::set_content") for n, _ in calls)
+                nre += 1 if rewrote else 0
+                if rewrote and render(res) != "True":
+                    bad.append("a path of the step that replaces a token's text returns %s" % render(res)[:40])
+        except TooComplex as e:
+            bad.append("the per-token step is not a loop-free classifier: %s" % e)
+    rep.check(init_false and whole and not bad and nre >= 1, R, "rewrite-flag-is-sticky-and-complete",
+              "the flag returned by format_multiline_strings is not (false initially, true after every step that replaced a token's text, never reset): %s"
+              % (bad[:3] or ("initial value / traversal: fold(%s, %s)" % (src[:60], canon(b, f.args[1])))), where="%s:%d" % (b.file, b.line),
+              instance={"form": "fold", "step": step, "paths_with_a_rewrite": nre})
+    return True
+
+
 def rewrite_is_reported(prog, rep, R):
     """format_multiline_strings returns a flag that is false initially, is set to true on every path on which a token's text was replaced,
     and is never reset: otherwise a line whose string changed is not measured and wrapped again."""
@@ -2059,6 +2120,8 @@ def rewrite_is_reported(prog, rep, R):
         rv = d[3]["rv"]
         if rv["k"] == "use" and rv["op"]["k"] in ("copy", "move") and not rv["op"]["place"]["p"]:
             flag = rv["op"]["place"]["l"]
+    if (not sc or flag is None) and _rewrite_flag_as_fold(prog, rep, R, b):
+        return
     if not rep.check(len(sc) >= 1 and flag is not None and b.locals[flag]["ty"] == "bool", R, "anchor:rewrite-flag", "format_multiline_strings does not return a bool flag / never calls set_content"):
         return
     loops = b.loops()
